@@ -57,12 +57,17 @@ func varsOf(vm *ds.Context) string {
 	return sb.String()
 }
 
-func observeRun(vm *ds.Context, input string) (o hostOut) {
+// observeRun: keepFaces leaves the forced-face queue where the prior programs left it (the oracle threads it through a history)
+func observeRun(vm *ds.Context, input string, faces []int64, force bool, keepFaces bool) (o hostOut) {
 	var stLog []string
 	vm.Config.CallbackSt = func(_type string, name string, val *ds.VMValue, extra *ds.VMValue, op string, detail string) {
 		stLog = append(stLog, fmt.Sprintf("%s|%s|%s|%v|%s|%s", _type, name, canon(project(val, 0)), extra != nil, op, detail))
 	}
-	resetRolls(nil, false)
+	if keepFaces {
+		rollLog = rollLog[:0]
+	} else {
+		resetRolls(faces, force)
+	}
 	defer func() {
 		if r := recover(); r != nil {
 			o.Panic = true
@@ -89,9 +94,22 @@ func observeRun(vm *ds.Context, input string) (o hostOut) {
 				o.Detail = "PANIC:" + fmt.Sprint(r)
 			}
 		}()
-		o.Detail = vm.GetDetailText()
+		o.Detail = canonDetail(vm.GetDetailText())
 	}()
 	return
+}
+
+// canonDetail: a dict with two or more keys prints in map order, which is unspecified; texts that render a dict are
+// compared as multisets of characters
+func canonDetail(s string) string {
+	// blanks and line breaks inside the text are not semantic (a span may or may not include the blank that follows it)
+	s = strings.Join(strings.Fields(s), "")
+	if !strings.Contains(s, "{'") {
+		return s
+	}
+	rs := []rune(s)
+	sort.Slice(rs, func(i, j int) bool { return rs[i] < rs[j] })
+	return "UNORDERED:" + string(rs)
 }
 
 var c03Breakers = []string{"{'a':1", "{'a':", "{'a'", "g9(1,", "g9(", "[1,2", "[1..", "[", "x[", "x[1:", "`a{", "`a{x", "`a{% if 1 {", "if 1 {", "if 1 { 2 } else {",
@@ -152,6 +170,7 @@ func init() {
 					vm.Config.IgnoreDiv0 = c.Cfg.Div0
 					setMode(vm, c.Cfg.Mode)
 					vm.Config.OpCountLimit = 200000
+					resetRolls(c.Faces, c.Cfg.Mode == 0) // the history's faces, from the start, on both VMs
 					for _, p := range prior {
 						runOne(vm, p)
 					}
@@ -164,12 +183,12 @@ func init() {
 						tail, sep = "", "" // the program alone: must be consumed entirely
 					}
 					input := text + sep + tail
-					o1 := observeRun(mk(), input)
+					o1 := observeRun(mk(), input, c.Faces, c.Cfg.Mode == 0, true)
 					ev := map[string]any{"ev": "c03", "id": c.Id, "input": input, "text": text, "sep": sep, "tail": tail, "prior": prior, "a": o1,
 						"b": hostOut{}, "hasB": false, "expSig": run.Sig, "strongSep": strings.HasPrefix(sep, ";"), "valOK": true, "consumedProgram": false}
 					stats["inputs"]++
 					if !o1.Err && !o1.Panic {
-						o2 := observeRun(mk(), o1.Matched)
+						o2 := observeRun(mk(), o1.Matched, c.Faces, c.Cfg.Mode == 0, true)
 						ev["b"], ev["hasB"] = o2, true
 						// the oracle's value for the program, when the parser consumed exactly the program
 						m := strings.TrimRight(o1.Matched, "; \n\t")
@@ -226,3 +245,65 @@ func reproject(m map[string]any) J {
 }
 
 var _ = bytes.Equal
+
+func init() {
+	// the same experiment for texts without an oracle (repository corpus, generated programs): contract checks only
+	subcmds["c03-text"] = func(args []string) int {
+		fs := newFlags("c03-text")
+		in := fs.String("in", "", "inputs ndjson {src}")
+		out := fs.String("out", "", "events ndjson")
+		tailsPer := fs.Int("tails", 3, "tails per program")
+		fs.Parse(args)
+		installRollHook()
+		r := rand.New(rand.NewSource(envSeed()))
+		w := newNDWriter(*out)
+		defer w.Close()
+		seps := []string{";", "; ", ";\n", "\n", " ", "\n\n", ""}
+		n := 0
+		readND(*in, func(line []byte) {
+			var rec struct {
+				Src string `json:"src"`
+			}
+			if json.Unmarshal(line, &rec) != nil || len(rec.Src) > 300 {
+				return
+			}
+			for _, u := range []string{"dir(", ".keys(", ".values(", ".items("} { // results in map order: unspecified
+				if strings.Contains(rec.Src, u) {
+					return
+				}
+			}
+			fc := flagCfg{r.Intn(2) == 0, r.Intn(2) == 0, r.Intn(2) == 0, r.Intn(2) == 0, r.Intn(6) == 0}
+			seed := uint64(r.Int63())
+			mode := []int{0, 0, -1, 1}[r.Intn(4)]
+			mk := func() *ds.Context {
+				vm := newSeededVM(seed)
+				vm.Config.EnableDiceWoD, vm.Config.EnableDiceCoC, vm.Config.EnableDiceFate, vm.Config.EnableDiceDoubleCross = fc.wod, fc.coc, fc.fate, fc.dc
+				vm.Config.DisableStmts = fc.nostmt
+				setMode(vm, mode)
+				if mode == 1 {
+					vm.Config.EnableDiceWoD, vm.Config.EnableDiceDoubleCross = false, false // exploding pools never end in max mode
+				}
+				vm.Config.OpCountLimit = 20000
+				return vm
+			}
+			for t := 0; t < *tailsPer; t++ {
+				tail := c03Breakers[r.Intn(len(c03Breakers))]
+				sep := seps[r.Intn(len(seps))]
+				if t == 0 {
+					tail, sep = "", ""
+				}
+				input := rec.Src + sep + tail
+				o1 := observeRun(mk(), input, nil, false, false)
+				ev := map[string]any{"ev": "c03", "id": n, "input": input, "text": rec.Src, "sep": sep, "tail": tail, "prior": []string{}, "a": o1,
+					"b": hostOut{}, "hasB": false, "expSig": "", "strongSep": false, "valOK": true, "consumedProgram": false}
+				if !o1.Err && !o1.Panic {
+					ev["b"], ev["hasB"] = observeRun(mk(), o1.Matched, nil, false, false), true
+				}
+				w.Write(ev)
+				n++
+			}
+		})
+		emitSummary(map[string]any{"inputs": n})
+		return 0
+	}
+}
